@@ -38,6 +38,26 @@ fn run_case(case: &Value) -> (Vec<Value>, Option<String>) {
     let log: Arc<Mutex<Vec<Value>>> = Arc::new(Mutex::new(Vec::new()));
     let subs = case["subs"].as_array().cloned().unwrap_or_default();
     let mut handles: Vec<Option<ListenerHandle>> = Vec::new();
+    let ops = case.get("ops").and_then(|x| x.as_array()).cloned().unwrap_or_default();
+    if !ops.is_empty() {
+        // churn family: subscriptions come and go in the given order
+        for op in &ops {
+            match op["o"].as_str().unwrap_or("") {
+                "Sub" => {
+                    let i = handles.len();
+                    let prefix = real(op["p"].as_str().unwrap_or(""));
+                    let lg = log.clone();
+                    let h = w.nodes.get("n1").unwrap().cc.subscribe_event(prefix, move |ev| {
+                        lg.lock().unwrap().push(json!({"sub": i + 1, "key": model(ev.key), "value": ev.value, "node": ev.node.node_id}));
+                    });
+                    handles.push(Some(h));
+                }
+                "Drop" => { let i = op["i"].as_u64().unwrap_or(1) as usize - 1; drop(handles[i].take()); }
+                "Forever" => { let i = op["i"].as_u64().unwrap_or(1) as usize - 1; if let Some(h) = handles[i].take() { h.forever(); } }
+                _ => {}
+            }
+        }
+    } else {
     for (i, s) in subs.iter().enumerate() {
         let prefix = real(s["prefix"].as_str().unwrap_or(""));
         let lg = log.clone();
@@ -52,6 +72,7 @@ fn run_case(case: &Value) -> (Vec<Value>, Option<String>) {
             "forever" => handles[i].take().unwrap().forever(),
             _ => {}
         }
+    }
     }
     let key = real(case["key"].as_str().unwrap_or(""));
     let kind = case["kind"].as_str().unwrap_or("");
